@@ -4072,6 +4072,55 @@ M('C08', 'reason-width-open-slice', SS, '        self.string = packet[:(self.hea
   '        self.string = packet[:]\n        del packet[:]', 'C08.d')
 M('C08', 'reason-width-end-relative', SS, '        self.string = packet[:(self.header.length - 2)]\n        del packet[:(self.header.length - 2)]',
   '        self.string = packet[:-1]\n        del packet[:-1]', 'C08.d')
+# third wave: header length codec under C08.i, hex-text value codecs (C08.f), delegates of families with open readers (C08.d)
+M('C08', 'partial-mask-0f', TY, 'return (1 << (fo & 0x1f), 1, True)',
+  'return (1 << (fo & 0x0f), 1, True)', 'C08.i')
+M('C08', 'two-octet-decode-mask-0f00', TY, 'return (((dlen - (192 << 8)) & 0xFF00) + ((dlen & 0xFF) + 192), 2, False)',
+  'return (((dlen - (192 << 8)) & 0x0F00) + ((dlen & 0xFF) + 192), 2, False)', 'C08.i')
+M('C08', 'two-octet-encode-mask-0f00', TY, 'elen = ((nl & 0xFF00) + (192 << 8)) + ((nl & 0xFF) - 192)',
+  'elen = ((nl & 0x0F00) + (192 << 8)) + ((nl & 0xFF) - 192)', 'C08.i')
+M('C08', 'encode-threshold-8383', TY, '            elif 8384 > nl:\n                elen',
+  '            elif 8383 > nl:\n                elen', 'C08.i')
+M('C08', 'five-octet-decode-short', TY, 'return (self.bytes_to_int(b[offset + 1:offset + 5]), 5, False)',
+  'return (self.bytes_to_int(b[offset + 1:offset + 4]), 5, False)', 'C08.i')
+M('C08', 'subpacket-typeid-mask-3f', ST, '        self._typeid = val & 0x7f',
+  '        self._typeid = val & 0x3f', 'C08.i')
+M('C08', 'issuerfpr-int-format-40', SS, "        self.issuer_fingerprint = ''.join('{:02x}'.format(c) for c in val).upper()",
+  "        self.issuer_fingerprint = '{:040X}'.format(self.bytes_to_int(val))", 'C08.f')
+M('C08', 'recipient-percent-format-40', SS, "        self.intended_recipient = ''.join('{:02x}'.format(c) for c in val).upper()",
+  "        self.intended_recipient = '%040X' % self.bytes_to_int(val)", 'C08.f')
+M('C08', 'revkey-octets-unpadded', SS, "        self.fingerprint = ''.join('{:02x}'.format(c) for c in val).upper()",
+  "        self.fingerprint = ''.join('{:x}'.format(c) for c in val).upper()", 'C08.f')
+M('C08', 'issuer-int-format-unpadded', SS, "        self._issuer = binascii.hexlify(val).upper().decode('latin-1')",
+  "        self._issuer = '{:X}'.format(self.bytes_to_int(val))", 'C08.f')
+M('C08', 'issuerfpr-format-builtin-40', SS, "        self.issuer_fingerprint = ''.join('{:02x}'.format(c) for c in val).upper()",
+  "        self.issuer_fingerprint = format(int.from_bytes(val, 'big'), '040X')", 'C08.f')
+M('C08', 'issuerfpr-writer-int-20', SS, '        _bytes += self.issuer_fingerprint.__bytes__()',
+  '        _bytes += self.int_to_bytes(int(self.issuer_fingerprint, 16), 20)', 'C08.f')
+M('C08', 'issuer-writer-int-minimal', SS, '        _bytes += binascii.unhexlify(self._issuer.encode())',
+  '        _bytes += self.int_to_bytes(int(self._issuer, 16))', 'C08.f')
+T('C08', 'twin-issuer-int-format-16', SS, "        self._issuer = binascii.hexlify(val).upper().decode('latin-1')",
+  "        self._issuer = '{:016X}'.format(self.bytes_to_int(val))")
+T('C08', 'twin-issuerfpr-hex-method', SS, "        self.issuer_fingerprint = ''.join('{:02x}'.format(c) for c in val).upper()",
+  '        self.issuer_fingerprint = val.hex().upper()')
+T('C08', 'twin-revkey-int-format-40', SS, "        self.fingerprint = ''.join('{:02x}'.format(c) for c in val).upper()",
+  "        self.fingerprint = '{:040X}'.format(self.bytes_to_int(val))")
+T('C08', 'twin-issuerfpr-percent-octets', SS, "        self.issuer_fingerprint = ''.join('{:02x}'.format(c) for c in val).upper()",
+  "        self.issuer_fingerprint = ''.join(format(octet, '02X') for octet in val)")
+M('C08', 'pubkey-public-arm-in-place', PK, '        # bound keymaterial to the remaining length of the packet\n        pend = self.header.length - 6\n        self.keymaterial.parse(packet[:pend])\n        del packet[:pend]\n',
+  '        if self.public:\n            self.keymaterial.parse(packet)\n\n        else:\n            pend = self.header.length - 6\n            self.keymaterial.parse(packet[:pend])\n            del packet[:pend]\n', 'C08.d')
+M('C08', 'pubkey-keymaterial-in-place', PK, '        # bound keymaterial to the remaining length of the packet\n        pend = self.header.length - 6\n        self.keymaterial.parse(packet[:pend])\n        del packet[:pend]\n',
+  '        self.keymaterial.parse(packet)\n', 'C08.d')
+M('C08', 'pubkey-bound-only-when-long', PK, '        # bound keymaterial to the remaining length of the packet\n        pend = self.header.length - 6\n        self.keymaterial.parse(packet[:pend])\n        del packet[:pend]\n',
+  '        pend = self.header.length - 6\n        if pend > 0:\n            self.keymaterial.parse(packet[:pend])\n            del packet[:pend]\n\n        else:\n            self.keymaterial.parse(packet)\n', 'C08.d')
+M('C08', 'pubkey-slice-not-consumed', PK, '        # bound keymaterial to the remaining length of the packet\n        pend = self.header.length - 6\n        self.keymaterial.parse(packet[:pend])\n        del packet[:pend]\n',
+  '        pend = self.header.length - 6\n        self.keymaterial.parse(packet[:pend])\n', 'C08.a')
+M('C08', 'pubkey-open-slice', PK, '        # bound keymaterial to the remaining length of the packet\n        pend = self.header.length - 6\n        self.keymaterial.parse(packet[:pend])\n        del packet[:pend]\n',
+  '        self.keymaterial.parse(packet[:])\n        del packet[:]\n', 'C08.d')
+M('C08', 'pkesk-opaque-ct-in-place', PK, '        ct = _c.get(self._pkalg, None)\n',
+  '        ct = _c.get(self._pkalg, OpaqueSignature)\n', 'C08.d')
+T('C08', 'twin-pubkey-cut-local', PK, '        # bound keymaterial to the remaining length of the packet\n        pend = self.header.length - 6\n        self.keymaterial.parse(packet[:pend])\n        del packet[:pend]\n',
+  '        rest = self.header.length - 6\n        body = packet[:rest]\n        del packet[:rest]\n        self.keymaterial.parse(body)\n')
 # --- end C08 hardening
 M('C09', 'old-tag-shift', PT, "        tag |= (self.tag) if self._lenfmt else ((self.tag << 2) | {1: 0, 2: 1, 4: 2, 0: 3}[self.llen])", "        tag |= (self.tag) if self._lenfmt else ((self.tag << 1) | {1: 0, 2: 1, 4: 2, 0: 3}[self.llen])", 'C09.8')
 M('C09', 'tag-mask-1f', PT, "        _tag = (val & 0x3F) if self._lenfmt else ((val & 0x3C) >> 2)", "        _tag = (val & 0x1F) if self._lenfmt else ((val & 0x3C) >> 2)", 'C09.8')
